@@ -39,6 +39,29 @@ Proof.
   intros v. cbn. by rewrite !lookup_empty.
 Qed.
 
+(* every reachable store, every commit / rollback, every crash point: the reopened store refines the specification chain
+   BEFORE the operation or the one AFTER it (so restart_refines applies to it) - never anything else *)
+Lemma crash_in_commit_refines m c prev cid data p k :
+  Inv m c -> wf_op c (OAdd prev cid data p) -> (k <= length (add_writes m prev cid data p))%nat ->
+  Inv (crash_after m (add_writes m prev cid data p) k) c \/
+  Inv (crash_after m (add_writes m prev cid data p) k)
+      (CE cid (abs_apply (a_front c) (p ++ frontier_ops cid data)) (p ++ frontier_ops cid data) :: c).
+Proof.
+  intros HI Hwf Hk. destruct (add_writes_atomic m prev cid data p k Hk) as [->|(m' & ok & Hadd & ->)].
+  - left. by apply durable_inv.
+  - pose proof (mgr_add_spec m c prev cid data p HI Hwf) as H. rewrite Hadd in H.
+    destruct (ident_eqb prev (a_front_id c)); destruct H as [_ H]; [right|left]; by apply durable_inv.
+Qed.
+
+Lemma crash_in_rollback_refines m c k :
+  Inv m c -> c <> [] -> (k <= length (pop_writes m))%nat ->
+  Inv (crash_after m (pop_writes m) k) c \/ Inv (crash_after m (pop_writes m) k) (tail c).
+Proof.
+  intros HI Hne Hk. destruct (pop_writes_atomic m k Hk) as [->|(m' & ok & Hpop & ->)].
+  - left. by apply durable_inv.
+  - pose proof (mgr_pop_spec m c HI Hne) as H. rewrite Hpop in H. destruct H as [_ H]. right. by apply durable_inv.
+Qed.
+
 (* crash during a commit, then re-deliver it: same chain as without the crash *)
 Theorem redeliver_after_crash m c cid data p :
   Inv m c -> wf_op c (OAdd (a_front_id c) cid data p) ->
